@@ -31,7 +31,8 @@ RULE = ("job = seed -> scenario with version *ranges* on both sides (so that "
         "that at least one endpoint processed"
         ' Also: ticket-issuing servers with flips aimed at the clear-text RFC 5077 NewSessionTicket (client must hold exactly what the server issued), and the TLS 1.1 sentinel of servers capped at TLS 1.2.'
         ' Injected warnings include half an alert (one byte); after both completed the sender of the attacked direction closes and its peer must read a plain end of stream; the sentinel must be ABSENT when the server negotiated its own maximum.'
-        " Alert-write faults: an endpoint's transport fails (timeout / EPIPE / reset) exactly while it writes a fatal alert - a detected tamper must not turn into a completed handshake.  Sweep family: EVERY byte of the plaintext handshake records of fixed flows (TLS 1.3 full / HelloRetryRequest, TLS 1.2 resumption; thorough: + tickets) is flipped once; both ends completing on transcripts that differ is a violation (transcripts_differ).")
+        " Alert-write faults: an endpoint's transport fails (timeout / EPIPE / reset) exactly while it writes a fatal alert - a detected tamper must not turn into a completed handshake.  Sweep family: EVERY byte of the plaintext handshake records of fixed flows (TLS 1.3 full / HelloRetryRequest, TLS 1.2 resumption; thorough: + tickets) is flipped once; both ends completing on transcripts that differ is a violation (transcripts_differ)."
+        ' Resumption flows may offer a session that dates from when the client only spoke TLS 1.2 (both ends meanwhile TLS 1.3 capable): the resumed ServerHello must carry the sentinel too.')
 LEVEL_TEXT = ("Seeded fault search over the plaintext part of every flight "
               "(all byte positions are reachable; quick samples them, "
               "thorough covers them densely) and over structured downgrade "
@@ -51,7 +52,7 @@ PROBES = ATTACKS + ["both_complete_same", "sentinel_seen",
                     "fallback_with_session", "ticket_compared",
                     "close_after_attack", "alert_write_fault",
                     "sweep_tls13_cert", "sweep_tls13_hrr",
-                    "sweep_tls12_resume_id",
+                    "sweep_tls12_resume_id", "resume_after_client_upgrade",
                     "sentinel_tls12_server"]
 COMPONENTS_REAL = ["tlslite handshakes (transcript hashing, Finished / "
                    "binder checks, downgrade sentinel, FALLBACK_SCSV)"]
@@ -155,6 +156,10 @@ def draw_scenario(ch):
         sc["resume"] = fl
         if fl == "resume_ticket":
             sc["sset"]["ticketKeys"] = ["33" * 32]
+        if hi == (3, 4) and lo <= (3, 3) and ch.draw(3, "cfg.upg") == 1:
+            # the session on offer dates from when the client only spoke
+            # TLS 1.2; meanwhile it supports TLS 1.3 like the server
+            sc["resume_client_was_12"] = True
     if sc["flavour"] == "cert" and sc.get("skey") == "rsa" and hi < (3, 4):
         kx = ["", "rsa", "dhe_rsa", "ecdhe_rsa"][ch.draw(4, "cfg.kx")]
         if kx:
@@ -283,9 +288,14 @@ def run(job, streams=None):
     cache = None
     if sc.get("resume"):
         cache = SessionCache()
+        sc_first = sc
+        if sc.get("resume_client_was_12"):
+            sc_first = json.loads(json.dumps(sc))
+            sc_first["cset"]["maxVersion"] = [3, 3]
+            probes["resume_after_client_upgrade"] = 1
         sim1, pair1, m1, oc1, os1, st1, _, _ = execute(
-            seed + 1, sc, kernel.Chooser(streams={}), None, cache=cache,
-            tag="0")
+            seed + 1, sc_first, kernel.Chooser(streams={}), None,
+            cache=cache, tag="0")
         if oc1.kind == "ok" and os1.kind == "ok":
             session = pair1.c.conn.session
             probes["resumption"] = 1
